@@ -44,6 +44,9 @@ enum Tk {
     /// take: the path ends there like at INVALID; nothing about them is a storage access
     Byte5c,
     Byte5d,
+    /// last token only: a jump into the partial data of a PUSH10 that the end of the code cuts short; the data spells
+    /// JUMPDEST PUSH1 0x2a PUSH1 7 SSTORE, but push data is not code
+    JumpIntoCutPush,
     // real accesses
     Sload1,
     Sstore2,
@@ -78,6 +81,7 @@ fn alphabet() -> Vec<Tk> {
         Tk::DeadJump,
         Tk::Byte5c,
         Tk::Byte5d,
+        Tk::JumpIntoCutPush,
         Tk::Sload1,
         Tk::Sstore2,
         Tk::Sstore,
@@ -94,7 +98,7 @@ fn arity(t: Tk) -> (usize, usize) {
         Tk::Pop | Tk::MstoreHi | Tk::Sstore2 => (1, 0),
         Tk::Dup1 => (1, 2),
         Tk::Log1 => (1, 0),
-        Tk::Return | Tk::DeadJump | Tk::Byte5c | Tk::Byte5d => (0, 0),
+        Tk::Return | Tk::DeadJump | Tk::Byte5c | Tk::Byte5d | Tk::JumpIntoCutPush => (0, 0),
         Tk::StaticCallArg | Tk::DelegateCallArg | Tk::CallArg | Tk::CreateArg | Tk::HashAgain => (1, 1),
         Tk::RevertArg | Tk::CondJump => (1, 0),
         Tk::Balance | Tk::IsZero | Tk::EqCaller => (1, 1),
@@ -148,6 +152,7 @@ fn expand(seq: &[Tk]) -> Vec<u8> {
             Tk::DeadJump => t.extend([Tok::PushLen(0), o(op::JUMP)]),
             Tk::Byte5c => t.extend([p(3), o(0x5c), o(op::POP)]),
             Tk::Byte5d => t.extend([p(1), p(7), o(0x5d)]),
+            Tk::JumpIntoCutPush => t.extend([Tok::PushLabel(100, U::ZERO), o(op::JUMP), Tok::Raw(vec![0x69]), Tok::Mark(100), Tok::Raw(vec![0x5b, 0x60, 0x2a, 0x60, 0x07, 0x55])]),
             Tk::Sload1 => t.extend([p(1), o(op::SLOAD)]),
             Tk::Sstore2 => t.extend([p(2), o(op::SSTORE)]),
             Tk::Sstore => t.push(o(op::SSTORE)),
@@ -407,11 +412,17 @@ impl Check for C05 {
                 }
             }
             // what the EVM executes ends at the first jump that cannot succeed; storage instructions behind it are dead
-            let live = seq.iter().position(|t| matches!(t, Tk::DeadJump | Tk::Byte5c | Tk::Byte5d)).map_or(seq.len(), |i| i + 1);
+            // the cut-short push swallows whatever follows it, so it only makes sense as the last token
+            if let Some(i) = seq.iter().position(|t| *t == Tk::JumpIntoCutPush) {
+                if i + 1 < seq.len() {
+                    return false;
+                }
+            }
+            let live = seq.iter().position(|t| matches!(t, Tk::DeadJump | Tk::Byte5c | Tk::Byte5d | Tk::JumpIntoCutPush)).map_or(seq.len(), |i| i + 1);
             let storage_free = !seq[..live].iter().any(|t| is_storage(*t));
             let dead_storage = seq[live..].iter().any(|t| is_storage(*t));
             let hashes = seq.iter().any(|t| matches!(t, Tk::MapKeyCaller7 | Tk::MapKeyCdl8 | Tk::ArrKey7Add | Tk::PushHash7));
-            let odd_bytes = seq.iter().any(|t| matches!(t, Tk::Byte5c | Tk::Byte5d));
+            let odd_bytes = seq.iter().any(|t| matches!(t, Tk::Byte5c | Tk::Byte5d | Tk::JumpIntoCutPush));
             if !hashes && !dead_storage && !odd_bytes {
                 return true;
             }
@@ -450,10 +461,10 @@ impl Check for C05 {
     }
     fn coverage(&self, tier: Tier, total: &Ctx) -> Map<String, Value> {
         let rule = format!(
-            "all stack-safe token sequences <= {} over 29 tokens that contain at least one look-alike hash computation or dead storage code: \
+            "all stack-safe token sequences <= {} over 30 tokens that contain at least one look-alike hash computation or dead storage code: \
              keccak(caller . 7), keccak(calldata . 8), keccak(7) + x, the literal keccak(7), a 160-bit mask, ADD, POP, DUP1, MSTORE, \
              LOG1, RETURN, CALLVALUE, the value passed as the argument data of STATICCALL / DELEGATECALL / CALL, as CREATE init code, as \
-             REVERT payload, hashed again, used as an address, zero-tested, compared, used as a branch condition, a JUMP beyond the code and the unassigned bytes 0x5c / 0x5d with load / store operands (everything behind them, storage instructions included, is dead), and the real accesses SLOAD(1), SSTORE(2), SSTORE / SLOAD with the key taken from the stack. \
+             REVERT payload, hashed again, used as an address, zero-tested, compared, used as a branch condition, a JUMP beyond the code and the unassigned bytes 0x5c / 0x5d with load / store operands (everything behind them, storage instructions included, is dead), a jump into the partial data of a trailing PUSH10 that spells a store, and the real accesses SLOAD(1), SSTORE(2), SSTORE / SLOAD with the key taken from the stack. \
              (Quick tier: sequences of the maximal length contain at most one consumer token, and sequences without a look-alike hash are one token shorter.) Programs whose live part (up to the first jump that cannot succeed) executes no storage instruction must yield an empty layout. For mixed programs every layout index must lie in the over-approximated \
              closure of the constants found in KEY sub-trees of the storage nodes of the execution result (constants, their keccak \
              pre-images below 10000, hashes of constant data, one constant addition). non-trivial = every such program (each contains a \
